@@ -485,17 +485,32 @@ Rests == {<<>>, <<1, 0, 0, 0, 0, 0, 0, 0, 5, 255, 47, 2>>}
 (* enc: the pristine input, inp: the input the decoder gets *)
 MkCase(r, cv, restLen, enc, c) == [rec |-> r, cv |-> cv, rest |-> restLen, enc |-> enc, c |-> c, inp |-> Apply(enc, c)]
 
+(* Seeds: the first (up to) three classes of a vector.  The environment     *)
+(* first completes the vector (Expand), so that the cases are built by all  *)
+(* TLC workers and not by the single thread that computes the initial       *)
+(* states.  A seed has rest = -1.                                           *)
+PreLen(r) == Min(3, Len(Grammar(r)))
+SeedPrefixes(r) == IF ValueMode = "full" THEN Prod(Grammar(r), PreLen(r))
+                   ELSE {SubSeq(cv, 1, PreLen(r)) : cv \in Vectors(r)}
+Seeds == UNION {{[rec |-> r, cv |-> p, rest |-> -1, enc |-> <<>>, c |-> NoCor, inp |-> <<>>] : p \in SeedPrefixes(r)}
+                : r \in Records}
+
+RECURSIVE Ext(_, _)
+Ext(G, p) == IF Len(p) = Len(G) THEN {p} ELSE UNION {Ext(G, Append(p, c)) : c \in Classes(G[Len(p) + 1].t)}
+
+VectorsFrom(r, p) == IF ValueMode = "full" THEN Ext(Grammar(r), p)
+                     ELSE {cv \in Vectors(r) : SubSeq(cv, 1, Len(p)) = p}
+
 (* the uncorrupted cases: a class vector, encoded, followed by trailing bytes *)
-BaseCasesOf(r) ==
+BaseCasesFrom(r, p) ==
   UNION { LET enc0 == Encode(r, cv)
              \* full product: trailing bytes only behind the vectors with at most one field off base
           IN {MkCase(r, cv, Len(rest), enc0 \o rest, NoCor) :
                 rest \in (IF ValueMode = "full" /\ cv \notin StarOf(r) THEN {<<>>} ELSE Rests)}
-        : cv \in Vectors(r) }
-BaseCases == UNION {BaseCasesOf(r) : r \in Records}
+        : cv \in VectorsFrom(r, p) }
 
 (* the corruptions applicable to an uncorrupted case k (the environment's move) *)
-Corruptible(k) == /\ k.c.k = "none" /\ CorrMode # "none"
+Corruptible(k) == /\ k.rest >= 0 /\ k.c.k = "none" /\ CorrMode # "none"
                   /\ k.cv \in StarOf(k.rec)
                   /\ (k.rest = 0 \/ CorrMode = "all")
 CorruptionsOf(k) ==
@@ -512,17 +527,21 @@ vars == <<case, st>>
 
 Input == case.inp
 
-Init == case \in BaseCases /\ st = Start
+Init == case \in Seeds /\ st = Start
+(* environment: pick the value that was written and what follows it in the file *)
+Expand == /\ case.rest = -1
+          /\ case' \in BaseCasesFrom(case.rec, case.cv)
+          /\ UNCHANGED st
 (* environment: damage the file before it is read *)
 Corrupt == /\ st.steps = 0 /\ Corruptible(case)
            /\ \E c \in CorruptionsOf(case) : case' = [case EXCEPT !.c = c, !.inp = Apply(case.enc, c)]
            /\ UNCHANGED st
 (* the decoder: one field (or one map entry) per step *)
-Decode == /\ st.outcome = "run"
+Decode == /\ case.rest >= 0 /\ st.outcome = "run"
           /\ st' = Step(st, Input, case.rec)
           /\ UNCHANGED case
 Done == st.outcome # "run" /\ UNCHANGED vars          \* terminal: stutter (so that a deadlock means "stuck")
-Next == Corrupt \/ Decode
+Next == Expand \/ Corrupt \/ Decode
 Spec == Init /\ [][Next \/ Done]_vars
 
 -----------------------------------------------------------------------------
@@ -540,7 +559,7 @@ C27_Terminates == st.steps <= Len(Grammar(case.rec)) + (Len(Input) \div 40) + 2
 (* C28: an uncorrupted encoding followed by arbitrary bytes reads back as   *)
 (* the value written and leaves exactly the trailing bytes                  *)
 C28_RoundTrip ==
-  (case.c.k = "none" /\ st.outcome # "run") =>
+  (case.rest >= 0 /\ case.c.k = "none" /\ st.outcome # "run") =>
      /\ st.outcome = "value"
      /\ st.out = [i \in 1..Len(case.cv) |-> Canon(Grammar(case.rec)[i].t, Vals(case.rec, case.cv)[i])]
      /\ st.pos = Len(case.enc) - case.rest
